@@ -141,14 +141,14 @@ def build_obligation(inst):
             if d[0] == "real":
                 data[k] = mk.array("in_" + k, tuple(d[1]), "real")
                 env[k] = data[k]
-        has_k = "k" in pin
+        bints = [k for k, d in pin.items() if d[0] == "bint"]
         pairs = []
-        for kv in (range(pin["k"][1]) if has_k else [None]):
+        for kvs in itertools.product(*(range(pin[k][1]) for k in bints)):
             dat = OrderedDict(data)
             e2 = dict(env)
-            if has_k:
-                dat["k"] = np.array(kv)
-                e2["k"] = kv
+            for k, kv in zip(bints, kvs):
+                dat[k] = np.array(kv)
+                e2[k] = kv
             dat = OrderedDict((k, dat[k]) for k in pin)
             exp = denote(prog, e2, leaves)
             try:
@@ -166,7 +166,7 @@ def build_obligation(inst):
                     elif mode == "compile":
                         got = program(**dat)
                         # relational: the same as substituting the arrays into the expression
-                        sub = expr(**{k: funsor.Tensor(v) if k != "k" else funsor.Number(int(v), pin["k"][1]) for k, v in dat.items()})
+                        sub = expr(**{k: funsor.Tensor(v) if k not in bints else funsor.Number(int(v), pin[k][1]) for k, v in dat.items()})
                         sub = funsor.reinterpret(sub)
                         if hasattr(sub, "data"):
                             pairs.append((got, sub.data))
@@ -247,6 +247,12 @@ def instances(tier, seed):
             p = binary("add", outreduce(opn, m if opn != "logsumexp" else m, axis, kd), num(2.0))
             for mode in ("compile", "code", "pickle", "trace"):
                 out.append(("p", p, mode))
+    # a tensor CONSTANT with a named input: the program must use that input (or the compiler must decline)
+    from lang.prog import leaf as _leaf, unary
+    ci = _leaf("ci", (("i", 2),), (2,), "real")
+    cij = _leaf("cij", (("i", 2), ("j", 3)), (), "real")
+    for p in (binary("add", ci, var("x", VARS["x"])), binary("mul", var("s", VARS["s"]), cij), unary("exp", binary("sub", var("x", VARS["x"]), ci))):
+        out.append(("p", p, "compile"))
     # op parameters that are None / Ellipsis / tuples with None (printing and pickling of op parameters)
     from lang.prog import getslice
     for base in (var("x", VARS["x"]), var("m", VARS["m"])):
